@@ -1083,6 +1083,7 @@ class Phonopy:
         u2s_map = self._supercell.u2s_map
         u_masses = s_masses[u2s_map]
         self._unitcell.set_masses(u_masses)
+        self._supercells_with_displacements = None
         if self._force_constants is not None:
             self._set_dynamical_matrix()
 
